@@ -188,17 +188,93 @@ func isComment(node Node) bool {
 	return ok
 }
 
-// Compact mode: Skip comments and decide if we need a space separator or not.
+// firstPrinted predicts the first text PrettyPrint will output for the node in the given precedence context
+// (an opening parenthesis when the node will be parenthesized).
+func firstPrinted(n Node, ctx Priority) string {
+	switch n := n.(type) {
+	case *InfixExpression:
+		prec := Precedences[n.Type()]
+		if prec < ctx {
+			return "("
+		}
+		return firstPrinted(n.Left, prec)
+	case *PrefixExpression:
+		if PREFIX <= ctx {
+			return "("
+		}
+		return n.Literal()
+	case *PostfixExpression:
+		if Precedences[n.Type()] < ctx {
+			return "("
+		}
+		return n.Prev.Literal()
+	case *CallExpression:
+		return firstPrinted(n.Function, CALL)
+	case *IndexExpression:
+		prec := Precedences[n.Type()]
+		if prec < ctx {
+			return "("
+		}
+		return firstPrinted(n.Left, prec)
+	case *FunctionLiteral:
+		if n.IsLambda {
+			if LAMBDA < ctx || len(n.Parameters) != 1 {
+				return "("
+			}
+			return n.Parameters[0].Value().Literal()
+		}
+	case *StringLiteral:
+		return "\""
+	}
+	if n == nil || n.Value() == nil {
+		return ""
+	}
+	return n.Value().Literal()
+}
+
+// Statements are just juxtaposed in compact mode: a statement starting with an operator that is also a binary
+// or postfix one would be parsed as the continuation of the previous statement.
+func needSemicolon(prev Node, first string) bool {
+	if prev == nil {
+		return false
+	}
+	if c, ok := prev.(*Comment); ok && c.Type() == token.LINECOMMENT {
+		return false
+	}
+	switch first {
+	case "-", "+", "^", "++", "--":
+		return true
+	}
+	return false
+}
+
+func isWordByte(b byte) bool {
+	return b == '_' || b == '.' || (b >= '0' && b <= '9') || (b >= 'a' && b <= 'z') || (b >= 'A' && b <= 'Z')
+}
+
+// Compact mode: Skip comments and decide if we need a separator or not.
 func prettyPrintCompact(ps *PrintState, s Node, i int) bool {
 	if isComment(s) {
 		return true
 	}
+	if i == 0 {
+		return false
+	}
+	first := firstPrinted(s, LOWEST)
+	if needSemicolon(ps.prev, first) {
+		_, _ = ps.Out.Write([]byte{';'})
+		return false
+	}
 	_, prevIsExpr := ps.prev.(*InfixExpression)
 	_, curIsArray := s.(*ArrayLiteral)
-	if curIsArray || (prevIsExpr && ps.last != "}" && ps.last != "]") {
-		if i > 0 {
-			_, _ = ps.Out.Write([]byte{' '})
-		}
+	needSpace := curIsArray || (prevIsExpr && ps.last != "}" && ps.last != "]")
+	if first != "" && ps.last != "" {
+		// would be a call or an index of the previous statement, or glue two words/numbers together.
+		needSpace = needSpace || first[0] == '(' || first[0] == '[' ||
+			(isWordByte(ps.last[len(ps.last)-1]) && isWordByte(first[0]))
+	}
+	if needSpace {
+		_, _ = ps.Out.Write([]byte{' '})
 	}
 	return false
 }
